@@ -609,3 +609,28 @@ class HolderDeleteArrays(Contract):
 
 CONTRACTS = [MemGet(), MemPut(), MemDelete(), DiskPutGet(), DiskDelete(), HolderGetArrayFull(), HolderSetFull(), HolderPutInCache(),
              HolderDeleteArrays()]
+
+
+# ---- native probe scenarios for contracts without a replay of their own (native/engine_probes.py): a failed obligation of an
+# ---- engine contract gets, if one of the scenarios fails on the real code, that scenario as its failing input
+ENGINE_NATIVE = "import sys; sys.path.insert(0, '/verif/native')\nimport engine_probes\noutcome = engine_probes.run(call)\n"
+
+
+def _engine_probes(self, case):
+    return [{"callee": self.name, "script": ENGINE_NATIVE, "scenarios": None}]
+
+
+def _engine_judge(self, I, case, call, nat):
+    if nat.get("kind") == "harness-error":
+        return "undecided", str(nat)[:300]
+    if nat["kind"] == "raise":
+        return "undecided", "probe scenario raised " + nat.get("exc", "") + ": " + nat.get("msg", "")
+    return ("satisfies", "all engine scenarios hold") if nat["value"].get("ok") else ("violates", "; ".join(nat["value"].get("problems", []))[:500])
+
+
+for _c in CONTRACTS:
+    if not hasattr(_c, "probes") and not hasattr(_c, "judge_native") and not hasattr(_c, "call_descriptor_custom"):
+        _cls = type(_c)
+        if "probes" not in _cls.__dict__ and not any("judge_native" in k.__dict__ for k in _cls.__mro__):
+            _cls.probes = _engine_probes
+            _cls.judge_native = _engine_judge
